@@ -11,7 +11,9 @@ import (
 	"testing"
 	"time"
 
+	"github.com/beevik/etree"
 	"github.com/sdcio/data-server/pkg/cache"
+	"github.com/sdcio/data-server/pkg/datastore/target"
 	"github.com/sdcio/data-server/pkg/tree"
 	sdcpb "github.com/sdcio/sdc-protos/sdcpb"
 )
@@ -225,7 +227,62 @@ func TestVerifReplayTypes(t *testing.T) {
 			})
 		}
 	}
+	// replace mode: whatever the options, the document a NETCONF device gets names the replace operation on every
+	// top-level element (an attribute on the document itself is never serialised)
+	{
+		fn := "(*datastore/types.TargetSourceReplace).ToXML"
+		for opt := 0; opt < 4; opt++ {
+			for _, tops := range [][]string{{"system"}, {"system", "interface"}, {}} {
+				counts[fn]++
+				opNs, useRemove := opt&1 != 0, opt&2 != 0
+				src := &vrXMLSource{tops: tops}
+				in := fmt.Sprintf("top-level elements=%v,operationWithNamespace=%v,useOperationRemove=%v", tops, opNs, useRemove)
+				vrCatch(fn, in, func() {
+					doc, err := NewTargetSourceReplace(src).ToXML(true, false, opNs, useRemove)
+					if err != nil {
+						fail(fn, "every_top_level_element_is_replaced", in, err.Error())
+						return
+					}
+					str, _ := doc.WriteToString()
+					re := etree.NewDocument()
+					if err := re.ReadFromString("<config>" + str + "</config>"); err != nil {
+						fail(fn, "every_top_level_element_is_replaced", in, "the document does not parse: "+err.Error())
+						return
+					}
+					got := re.Root().ChildElements()
+					if len(got) != len(tops) {
+						fail(fn, "every_top_level_element_is_replaced", in, fmt.Sprintf("%d top-level elements in %s", len(got), str))
+					}
+					for _, e := range got {
+						op := ""
+						for _, a := range e.Attr {
+							if a.Key == "operation" {
+								op = a.Value
+							}
+						}
+						if op != "replace" {
+							fail(fn, "every_top_level_element_is_replaced", in, fmt.Sprintf("element %s carries operation %q in %s", e.Tag, op, str))
+						}
+					}
+				})
+			}
+		}
+	}
 	for fn, n := range counts {
 		fmt.Printf("REPLAY-CASES fn=%s n=%d\n", fn, n)
 	}
+}
+
+// vrXMLSource is a target source that renders a fixed document
+type vrXMLSource struct {
+	target.TargetSource
+	tops []string
+}
+
+func (s *vrXMLSource) ToXML(onlyNewOrUpdated bool, honorNamespace bool, operationWithNamespace bool, useOperationRemove bool) (*etree.Document, error) {
+	d := etree.NewDocument()
+	for _, t := range s.tops {
+		d.CreateElement(t).CreateElement("leaf").SetText("v")
+	}
+	return d, nil
 }
